@@ -195,6 +195,7 @@ pub fn gen_recv(r: &mut Rng, p: &Profile, sender_total: u64) -> RecvScript {
         m => m,
     };
     RecvScript {
+        drop_at: None,
         mode,
         stop_at,
         pauses,
@@ -381,7 +382,64 @@ pub fn plan_for(property: &str, seed: u64) -> Plan {
             plan.time_cap_us += end;
             plan
         }
-        "C02" => match r.below(3) {
+        "C02" => match r.below(4) {
+            3 => {
+                // many short streams through a small stream-count limit and a small connection
+                // window; the receiving application reads only the beginning of each message and
+                // abandons the stream after the rest has arrived. Every abandoned stream has to
+                // give its stream credit and the credit of its unread bytes back, otherwise the
+                // sender ends up parked in open()/send() on a healthy network.
+                let p = Profile { max_conns: 1, max_streams: 1, max_stream_bytes: 16_000, fault_rates_permille: &[0, 0, 0, 10], corrupting: false, ..Default::default() };
+                let mut plan = base_plan(seed, property, "c02.partial_reads", &mut r, &p);
+                let sender = if r.chance(1, 2) { Role::Client } else { Role::Server };
+                let limit = r.pick(&[1u64, 2, 3, 4]);
+                let bidi = r.chance(1, 3);
+                let window = r.pick(&[8_192u64, 16_384, 65_536]);
+                for e in [&mut plan.cfg.server, &mut plan.cfg.client] {
+                    e.limits.max_remote_uni = limit;
+                    e.limits.max_remote_bidi = limit;
+                    e.limits.max_local_uni = 100;
+                    e.limits.max_local_bidi = 100;
+                    e.limits.data_window = window;
+                    e.limits.uni_window = 0;
+                    e.limits.bidi_local_window = 0;
+                    e.limits.bidi_remote_window = 0;
+                    e.limits.idle_timeout_ms = 30_000;
+                }
+                let n = r.range(6, 30);
+                let template = plan.conns[0].streams[0].clone();
+                let mut streams = vec![];
+                for k in 0..n {
+                    let mut s = template.clone();
+                    s.opener = sender;
+                    s.bidi = bidi;
+                    s.open_delay_us = k * r.pick(&[0u64, 1_000, 20_000]);
+                    s.fwd.total = r.range(2_000, (window / 2).min(12_000));
+                    s.fwd.chunks = vec![r.pick(&[512u32, 4096, 16384])];
+                    s.fwd.mode = SendMode::Send;
+                    s.fwd.end = SendEnd::Finish;
+                    s.fwd.pauses.clear();
+                    s.fwd.flush_every = 0;
+                    s.fwd_recv = RecvScript {
+                        // small reads so that only a prefix has been consumed
+                        mode: RecvMode::AsyncRead(r.pick(&[64u32, 200, 1000])),
+                        stop_at: None,
+                        pauses: vec![],
+                        start_delay_us: 0,
+                        drop_at: if r.chance(5, 6) { Some((r.range(1, 600), r.pick(&[0u64, 50_000, 300_000]))) } else { None },
+                    };
+                    s.rev = None;
+                    s.rev_recv = None;
+                    streams.push(s);
+                }
+                plan.conns[0].streams = streams;
+                plan.conns[0].keep_alive = false;
+                plan.conns[0].close = CloseSpec::AfterAll { by: sender, code: 11 };
+                let end = 1_000_000u64;
+                plan.faults_end_us = Some(end);
+                plan.time_cap_us += end;
+                plan
+            }
             0 => {
                 let p = Profile { allow_reset: true, allow_stop: true, ..Default::default() };
                 let mut plan = base_plan(seed, property, "c02.finite", &mut r, &p);
@@ -627,12 +685,16 @@ pub fn plan_for(property: &str, seed: u64) -> Plan {
         }
         "C08" => {
             let p = Profile {
-                max_stream_bytes: 200_000,
+                // a third of the plans: bulk transfers cut short by an application close while
+                // hundreds of packets are unacknowledged (packet number encoding of the close)
+                hard_close: r.chance(1, 3),
+                max_stream_bytes: if r.chance(1, 3) { 2 << 20 } else { 200_000 },
                 corrupting: false,
                 fault_rates_permille: &[0, 5, 20, 50, 150],
                 ..Default::default()
             };
             let mut plan = base_plan(seed, property, "c08.acks", &mut r, &p);
+
             // losing ACK-only datagrams and long reordering are what stresses this property
             if r.chance(1, 2) {
                 plan.faults.push(Fault {
@@ -649,6 +711,48 @@ pub fn plan_for(property: &str, seed: u64) -> Plan {
             let end = r.pick(&[2_000_000u64, 12_000_000]);
             plan.faults_end_us = Some(end);
             plan.time_cap_us += end;
+            // one plan in six: a bulk sender with a large window closes the connection in the
+            // middle of the transfer, while far more than 128 packets are unacknowledged
+            if r.chance(1, 6) {
+                plan.family = "c08.close_in_flight".into();
+                plan.conns.truncate(1);
+                let by = if r.chance(1, 2) { Role::Client } else { Role::Server };
+                plan.cfg.base_delay_us = r.pick(&[20_000u64, 50_000, 100_000]);
+                plan.cfg.jitter_us = 0;
+                plan.cfg.path_mtu = 1500;
+                for e in [&mut plan.cfg.server, &mut plan.cfg.client] {
+                    e.limits.data_window = 0;
+                    e.limits.bidi_local_window = 0;
+                    e.limits.bidi_remote_window = 0;
+                    e.limits.uni_window = 0;
+                    e.limits.max_send_buffer = 4 << 20;
+                    e.tx_ring = None;
+                    e.rx_ring = None;
+                }
+                let c = &mut plan.conns[0];
+                c.streams.truncate(1);
+                let s = &mut c.streams[0];
+                s.opener = by;
+                s.bidi = false;
+                s.open_delay_us = 0;
+                s.fwd.total = 8 << 20;
+                s.fwd.chunks = vec![65536];
+                s.fwd.mode = SendMode::Send;
+                s.fwd.end = SendEnd::Finish;
+                s.fwd.pauses.clear();
+                s.fwd.flush_every = 0;
+                s.fwd_recv.pauses.clear();
+                s.fwd_recv.start_delay_us = 0;
+                s.fwd_recv.stop_at = None;
+                s.fwd_recv.mode = RecvMode::Receive;
+                s.rev = None;
+                s.rev_recv = None;
+                // after slow start has opened the window: 8..14 round trips
+                let rtt = 2 * plan.cfg.base_delay_us;
+                c.close = CloseSpec::At { us: c.start_us + rtt * r.range(6, 10), by, code: 3 };
+                // no loss: the window must be allowed to open
+                plan.faults.clear();
+            }
             plan
         }
         "C11" => {
